@@ -116,7 +116,7 @@ pub fn run(ctx: &Ctx) -> Outcome {
     let codes = recognised_codes();
     let n_random = ctx.size(2_000_000, 10_000_000);
     let rand_shards = 32usize;
-    let report = run_sharded(ctx, 256 + 256 + rand_shards, |shard, rep| {
+    let mut report = run_sharded(ctx, 256 + 256 + rand_shards, |shard, rep| {
         if shard < 256 {
             // exhaustive: this type x all first bytes x 6 lengths x 8 addresses
             let ty = shard as u8;
@@ -228,6 +228,12 @@ pub fn run(ctx: &Ctx) -> Outcome {
             }
         }
     });
+    {
+        // the same calls from a thread-local destructor while a thread exits (see exitprobe.rs)
+        let mut at_exit = Report::new();
+        crate::exitprobe::check("message", MON, &mut at_exit);
+        report.merge(at_exit);
+    }
 
     let mut floors = vec![
         floor("data chunks carrying configuration blocks and page headers", report.get("config_like_chunks") == 44, report.get("config_like_chunks")),
